@@ -166,8 +166,19 @@ def inout_case(c):
   return {'impl': safe(impl), 'ref': safe(ref)}
 
 
+def split_io_case(c):
+  """flax.core.lift._split_in_out_axes on a variable_axes mapping with In / Out markers: the ordered (filter, axis) lists that become
+  pack's in and out filters (first match wins among them, so the order is part of the meaning). c['entries']: [[name, marker, axis]]"""
+  from flax.core import lift
+  mk = {'both': lambda a: a, 'in': In, 'out': Out}
+  d = {e[0]: mk[e[1]](e[2]) for e in c['entries']}
+  i, o = lift._split_in_out_axes(d)
+  return {'in': [[k, v] for k, v in i.items()], 'out': [[k, v] for k, v in o.items()]}
+
+
 def main(payload):
-  return {'fields': [fields_case(c) for c in payload.get('fields', [])], 'inout': [inout_case(c) for c in payload.get('inout', [])]}
+  return {'fields': [fields_case(c) for c in payload.get('fields', [])], 'inout': [inout_case(c) for c in payload.get('inout', [])],
+          'split_io': [safe(lambda c=c: split_io_case(c)) for c in payload.get('split_io', [])]}
 
 
 if __name__ == '__main__':
